@@ -37,6 +37,13 @@
 (*   removes n2's key, n3 claims the slot too.  A 90 s stall inside one call is outside what  *)
 (*   the check can drive; recorded as a limit.)                                               *)
 (*                                                                                            *)
+(* Store faults: at most ONE operation of kind fk (chosen in Init from Faults: "SetNX",       *)
+(* "Exists", "Set", "Delete") on the shared store fails with an error (fault branch of NX, Ex,*)
+(* FSet, Del, Claim; farm: "idle" -> "spent").  What the code does then: Generate logs the    *)
+(* error and goes on with the next attempt (the marker is untouched), Release returns the     *)
+(* error (the marker stays), AllocateNodeID goes on with the next slot.  A fault never hits   *)
+(* the model's last attempt (the real loop has 98 more).                                      *)
+(* A node whose allocation failed holds nothing: its Release (NRelNoop) touches no key.       *)
 (* The pattern of pre-existing ids (`taken`) and the instance layout are chosen in Init, so   *)
 (* one TLC run covers all patterns.  Ghost flags name the deviations:                         *)
 (*   nonAtomic  a fallback Set wrote a marker that another instance had written since Exists  *)
@@ -56,9 +63,11 @@ CONSTANTS Mode,         \* "gen" | "node"
           Wiring,       \* node: "split" | "same"
           TTLTicks,     \* node: claim TTL in renew periods (90 s / 30 s = 3)
           MaxTicks,     \* node: bound on elapsed periods (0 = untimed interleavings only)
+          Faults,       \* kinds of store operation of which one may fail ({} = no fault)
           Emit
 
-VARIABLES layout, taken,                       \* chosen in Init
+VARIABLES layout, taken, fk,                   \* chosen in Init (fk: the kind of operation that may fail once, or "none")
+          farm,                                \* "idle": the fault has not happened yet, "spent": it has
           used,                                \* gen: ids whose marker key exists in the store
           pc, cand, att, held, calls,          \* per process
           mu,                                  \* gen: holder of each instance's mutex, or "none"
@@ -69,8 +78,9 @@ VARIABLES layout, taken,                       \* chosen in Init
           hist
 genv  == <<used, cand, att, held, calls, mu, dup, tookTaken, nonAtomic>>
 nodev == <<sh, age, hold, renewed, ticks, expLive, wrongTier, ndup, nforeign>>
-vars  == <<layout, taken, pc, genv, nodev, hist>>
-view  == <<layout, taken, pc, genv, nodev>>
+fv    == <<fk, farm>>
+vars  == <<layout, taken, fv, pc, genv, nodev, hist>>
+view  == <<layout, taken, fv, pc, genv, nodev>>
 
 Cands == 1..NCands
 Slots == 1..NSlots
@@ -80,6 +90,7 @@ InstOf(p) == IF layout = "same" THEN "g1"
 
 Init == /\ layout \in (IF Mode = "gen" THEN Layouts ELSE {"nodes"})
         /\ taken \in (IF Mode = "gen" THEN SUBSET Cands ELSE SUBSET Slots)
+        /\ fk \in (IF Faults = {} THEN {"none"} ELSE Faults) /\ farm = "idle"
         /\ used = (IF Mode = "gen" THEN taken ELSE {})
         /\ pc = [p \in Procs |-> "idle"] /\ cand = [p \in Procs |-> 0] /\ att = [p \in Procs |-> 0]
         /\ held = [p \in Procs |-> {}] /\ calls = [p \in Procs |-> 0]
@@ -88,7 +99,7 @@ Init == /\ layout \in (IF Mode = "gen" THEN Layouts ELSE {"nodes"})
         /\ sh = [s \in Slots |-> Mode = "node" /\ s \in taken] /\ age = [s \in Slots |-> 0]
         /\ hold = [p \in Procs |-> 0] /\ renewed = [p \in Procs |-> FALSE] /\ ticks = 0
         /\ expLive = FALSE /\ wrongTier = FALSE /\ ndup = FALSE /\ nforeign = FALSE
-        /\ hist = [lay |-> layout, tk |-> taken, st |-> <<>>]
+        /\ hist = [lay |-> layout, tk |-> taken, fk |-> fk, st |-> <<>>]
 
 Out(h) == IF Emit THEN PrintT("BEH " \o ToJson(h)) ELSE TRUE
 \* who obtained an instance mutex in this step ("" = nobody); at most one mutex changes per step
@@ -99,6 +110,10 @@ Got == LET ch == {i \in MuDom : mu'[i] # mu[i] /\ mu'[i] # "none"}
 Log(p, a, c, r) == /\ hist' = [hist EXCEPT !.st = Append(hist.st,
                                   [p |-> p, a |-> a, c |-> c, r |-> r, w |-> (p \in Procs /\ pc'[p] = "W"), g |-> Got])]
                    /\ Out(hist')
+
+\* the single store fault can hit this operation of kind k now
+CanFail(k) == fk = k /\ farm = "idle"
+Spend == farm' = "spent" /\ fk' = fk
 
 \* =========================== generator (Mode = "gen") =====================================
 Waiters(i) == {q \in Procs : pc[q] = "W" /\ InstOf(q) = i}
@@ -129,13 +144,13 @@ CallGen(p, c) ==
   /\ Mode = "gen" /\ pc[p] = "idle" /\ calls[p] < MaxCalls
   /\ cand' = [cand EXCEPT ![p] = c] /\ att' = [att EXCEPT ![p] = 1]
   /\ IF HasNX THEN pc' = [pc EXCEPT ![p] = "nx"] /\ mu' = mu ELSE Enter(p)
-  /\ UNCHANGED <<layout, taken, used, held, calls, dup, tookTaken, nonAtomic, nodev>>
+  /\ UNCHANGED <<layout, taken, fv, used, held, calls, dup, tookTaken, nonAtomic, nodev>>
   /\ Log(p, "CallGen", c, "")
 
 \* atomic set-if-absent
-NX(p) ==
+NXok(p) ==
   /\ pc[p] = "nx"
-  /\ UNCHANGED <<layout, taken, mu, nonAtomic, nodev>>
+  /\ UNCHANGED <<layout, taken, fv, mu, nonAtomic, nodev>>
   /\ IF cand[p] \notin used
      THEN /\ used' = used \cup {cand[p]} /\ RetOk(p, cand[p]) /\ pc' = [pc EXCEPT ![p] = "idle"]
           /\ UNCHANGED <<cand, att>> /\ Log(p, "NX", 0, "ok")
@@ -145,10 +160,18 @@ NX(p) ==
      ELSE /\ RetErr(p) /\ pc' = [pc EXCEPT ![p] = "idle"]               \* ErrIDExhausted
           /\ UNCHANGED <<used, cand, att>> /\ Log(p, "NX", 0, "err")
 
+\* SetNX returns an error: tryMarkAsUsed fails, Generate logs it and goes on with the next attempt
+NXfault(p) ==
+  /\ pc[p] = "nx" /\ CanFail("SetNX") /\ att[p] < MaxAttempts /\ Spend
+  /\ \E c \in Cands : /\ cand' = [cand EXCEPT ![p] = c] /\ att' = [att EXCEPT ![p] = att[p] + 1]
+                        /\ UNCHANGED <<layout, taken, mu, nonAtomic, nodev, used, pc, held, calls, dup, tookTaken>>
+                        /\ Log(p, "NX", c, "fretry")
+NX(p) == NXok(p) \/ NXfault(p)
+
 \* fallback, first half: Exists(key) under the instance mutex
-Ex(p) ==
+Exok(p) ==
   /\ pc[p] = "ex" /\ mu[InstOf(p)] = p
-  /\ UNCHANGED <<layout, taken, used, nonAtomic, nodev>>
+  /\ UNCHANGED <<layout, taken, fv, used, nonAtomic, nodev>>
   /\ IF cand[p] \notin used
      THEN /\ pc' = [pc EXCEPT ![p] = "set"]
           /\ UNCHANGED <<mu, cand, att, held, calls, dup, tookTaken>> /\ Log(p, "Ex", 0, "free")
@@ -159,29 +182,39 @@ Ex(p) ==
      ELSE /\ RetErr(p) /\ Handover(p, FALSE)
           /\ UNCHANGED <<cand, att>> /\ Log(p, "Ex", 0, "err")
 
+\* Exists / Set returns an error: tryMarkAsUsed unlocks and fails, Generate goes on with the next attempt
+FBfault(p, k, a) ==
+  /\ mu[InstOf(p)] = p /\ CanFail(k) /\ att[p] < MaxAttempts /\ Spend
+  /\ UNCHANGED <<layout, taken, used, nonAtomic, nodev, held, calls, dup, tookTaken>>
+  /\ \E c \in Cands : /\ cand' = [cand EXCEPT ![p] = c] /\ att' = [att EXCEPT ![p] = att[p] + 1]
+                        /\ Handover(p, TRUE)
+                        /\ Log(p, a, c, "fretry")
+Ex(p) == Exok(p) \/ (pc[p] = "ex" /\ FBfault(p, "Exists", "Ex"))
+
 \* fallback, second half: Set(key) - unconditional
-FSet(p) ==
+FSetok(p) ==
   /\ pc[p] = "set" /\ mu[InstOf(p)] = p
   /\ nonAtomic' = (nonAtomic \/ cand[p] \in used)                       \* deviation: somebody marked it since our Exists
   /\ used' = used \cup {cand[p]}
   /\ RetOk(p, cand[p]) /\ Handover(p, FALSE)
-  /\ UNCHANGED <<layout, taken, cand, att, nodev>>
+  /\ UNCHANGED <<layout, taken, fv, cand, att, nodev>>
   /\ Log(p, "Set", 0, "ok")
+FSet(p) == FSetok(p) \/ (pc[p] = "set" /\ FBfault(p, "Set", "Set"))
 
 \* Release(x) of an id this caller holds: outstanding ends at the call, the marker goes at Del
 CallRel(p, x) ==
   /\ Mode = "gen" /\ pc[p] = "idle" /\ calls[p] < MaxCalls /\ x \in held[p]
   /\ held' = [held EXCEPT ![p] = held[p] \ {x}]
   /\ cand' = [cand EXCEPT ![p] = x] /\ pc' = [pc EXCEPT ![p] = "del"]
-  /\ UNCHANGED <<layout, taken, used, att, calls, mu, dup, tookTaken, nonAtomic, nodev>>
+  /\ UNCHANGED <<layout, taken, fv, used, att, calls, mu, dup, tookTaken, nonAtomic, nodev>>
   /\ Log(p, "CallRel", x, "")
 
 Del(p) ==
   /\ Mode = "gen" /\ pc[p] = "del"
-  /\ used' = used \ {cand[p]}
   /\ calls' = [calls EXCEPT ![p] = calls[p] + 1] /\ pc' = [pc EXCEPT ![p] = "idle"]
   /\ UNCHANGED <<layout, taken, cand, att, held, mu, dup, tookTaken, nonAtomic, nodev>>
-  /\ Log(p, "Del", 0, "")
+  /\ \/ used' = used \ {cand[p]} /\ UNCHANGED fv /\ Log(p, "Del", 0, "")
+     \/ CanFail("Delete") /\ Spend /\ used' = used /\ Log(p, "Del", 0, "fault")   \* Release returns the error, the marker stays
 
 \* =========================== node ids (Mode = "node") =====================================
 Live(n) == pc[n] = "held"                                \* allocated, heartbeat running
@@ -190,13 +223,13 @@ RenewHitsClaim == RenewTier = "claim" \/ Wiring = "same"
 CallAlloc(n) ==
   /\ Mode = "node" /\ pc[n] = "idle"
   /\ pc' = [pc EXCEPT ![n] = "claim"] /\ cand' = [cand EXCEPT ![n] = 1]
-  /\ UNCHANGED <<layout, taken, used, att, held, calls, mu, dup, tookTaken, nonAtomic, nodev>>
+  /\ UNCHANGED <<layout, taken, fv, used, att, held, calls, mu, dup, tookTaken, nonAtomic, nodev>>
   /\ Log(n, "CallAlloc", 0, "")
 
 \* SetNXRuntime on the key of slot cand[n]
-Claim(n) ==
+Claimok(n) ==
   /\ Mode = "node" /\ pc[n] = "claim"
-  /\ UNCHANGED <<layout, taken, used, att, held, calls, mu, dup, tookTaken, nonAtomic, ticks, expLive, wrongTier>>
+  /\ UNCHANGED <<layout, taken, fv, used, att, held, calls, mu, dup, tookTaken, nonAtomic, ticks, expLive, wrongTier>>
   /\ LET s == cand[n] IN
      IF ~sh[s]
      THEN /\ sh' = [sh EXCEPT ![s] = TRUE] /\ age' = [age EXCEPT ![s] = 0]
@@ -211,6 +244,22 @@ Claim(n) ==
      ELSE /\ pc' = [pc EXCEPT ![n] = "failed"]                         \* every further slot is occupied too
           /\ UNCHANGED <<sh, age, hold, renewed, ndup, nforeign, cand>> /\ Log(n, "Claim", s, "err")
 
+\* SetNXRuntime returns an error: the allocator logs it and goes on with the next slot
+Claimfault(n) ==
+  /\ Mode = "node" /\ pc[n] = "claim" /\ CanFail("SetNX") /\ Spend
+  /\ UNCHANGED <<layout, taken, used, att, held, calls, mu, dup, tookTaken, nonAtomic, nodev>>
+  /\ IF cand[n] < NSlots
+     THEN cand' = [cand EXCEPT ![n] = cand[n] + 1] /\ UNCHANGED pc /\ Log(n, "Claim", cand[n], "fretry")
+     ELSE pc' = [pc EXCEPT ![n] = "failed"] /\ UNCHANGED cand /\ Log(n, "Claim", cand[n], "ferr")
+Claim(n) == Claimok(n) \/ Claimfault(n)
+
+\* Release by an allocator whose allocation failed: it holds nothing, no key is touched
+NRelNoop(n) ==
+  /\ Mode = "node" /\ pc[n] = "failed"
+  /\ pc' = [pc EXCEPT ![n] = "gone"]
+  /\ UNCHANGED <<layout, taken, fv, genv, nodev>>
+  /\ Log(n, "CallRel", 0, "noop")
+
 \* heartbeat of a live node, once per period
 Renew(n) ==
   /\ Mode = "node" /\ MaxTicks > 0 /\ Live(n) /\ ~renewed[n]
@@ -218,7 +267,7 @@ Renew(n) ==
   /\ IF RenewHitsClaim THEN sh' = [sh EXCEPT ![hold[n]] = TRUE] /\ age' = [age EXCEPT ![hold[n]] = 0]   \* plain Set: unconditional
                        ELSE UNCHANGED <<sh, age>>                                                     \* written to the node-local cache
   /\ wrongTier' = (wrongTier \/ ~RenewHitsClaim)                                                      \* deviation
-  /\ UNCHANGED <<layout, taken, pc, genv, hold, ticks, expLive, ndup, nforeign>>
+  /\ UNCHANGED <<layout, taken, fv, pc, genv, hold, ticks, expLive, ndup, nforeign>>
   /\ Log(n, "Renew", hold[n], IF RenewHitsClaim THEN "claim" ELSE "local")
 
 Tick ==
@@ -230,39 +279,39 @@ Tick ==
   /\ \A s \in Slots : (sh[s] /\ s \notin taken) => age[s] < TTLTicks     \* a due expiry happens before more time passes
   /\ age' = [s \in Slots |-> IF sh[s] /\ s \notin taken THEN age[s] + 1 ELSE age[s]]   \* foreign holders keep their claims fresh
   /\ renewed' = [n \in Procs |-> FALSE] /\ ticks' = ticks + 1
-  /\ UNCHANGED <<layout, taken, pc, genv, sh, hold, expLive, wrongTier, ndup, nforeign>>
+  /\ UNCHANGED <<layout, taken, fv, pc, genv, sh, hold, expLive, wrongTier, ndup, nforeign>>
   /\ Log("time", "Tick", 0, "")
 
 SlotExpire(s) ==
   /\ Mode = "node" /\ sh[s] /\ s \notin taken /\ age[s] = TTLTicks
   /\ sh' = [sh EXCEPT ![s] = FALSE] /\ age' = [age EXCEPT ![s] = 0]
   /\ expLive' = (expLive \/ \E n \in Procs : Live(n) /\ hold[n] = s)    \* deviation
-  /\ UNCHANGED <<layout, taken, pc, genv, hold, renewed, ticks, wrongTier, ndup, nforeign>>
+  /\ UNCHANGED <<layout, taken, fv, pc, genv, hold, renewed, ticks, wrongTier, ndup, nforeign>>
   /\ Log("time", "Expire", s, IF \E n \in Procs : Live(n) /\ hold[n] = s THEN "live" ELSE "dead")
 
 NCallRel(n) ==
   /\ Mode = "node" /\ Live(n)
   /\ pc' = [pc EXCEPT ![n] = "rel"]                                     \* close(stopCh): no more heartbeats
-  /\ UNCHANGED <<layout, taken, genv, nodev>>
+  /\ UNCHANGED <<layout, taken, fv, genv, nodev>>
   /\ Log(n, "CallRel", hold[n], "")
 
 NDel(n) ==
   /\ Mode = "node" /\ pc[n] = "rel"
   /\ sh' = [sh EXCEPT ![hold[n]] = FALSE] /\ age' = [age EXCEPT ![hold[n]] = 0]   \* Delete: unconditional
   /\ hold' = [hold EXCEPT ![n] = 0] /\ pc' = [pc EXCEPT ![n] = "gone"]
-  /\ UNCHANGED <<layout, taken, genv, renewed, ticks, expLive, wrongTier, ndup, nforeign>>
+  /\ UNCHANGED <<layout, taken, fv, genv, renewed, ticks, expLive, wrongTier, ndup, nforeign>>
   /\ Log(n, "Del", 0, "")
 
 Crash(n) ==
   /\ Mode = "node" /\ MaxTicks > 0 /\ Live(n)
   /\ pc' = [pc EXCEPT ![n] = "dead"]
-  /\ UNCHANGED <<layout, taken, genv, nodev>>
+  /\ UNCHANGED <<layout, taken, fv, genv, nodev>>
   /\ Log(n, "Crash", hold[n], "")
 
 Next == \/ \E p \in Procs : \/ \E c \in Cands : CallGen(p, c)
                             \/ NX(p) \/ Ex(p) \/ FSet(p) \/ Del(p)
                             \/ \E x \in Cands : CallRel(p, x)
-                            \/ CallAlloc(p) \/ Claim(p) \/ Renew(p) \/ NCallRel(p) \/ NDel(p) \/ Crash(p)
+                            \/ CallAlloc(p) \/ Claim(p) \/ Renew(p) \/ NCallRel(p) \/ NRelNoop(p) \/ NDel(p) \/ Crash(p)
         \/ Tick
         \/ \E s \in Slots : SlotExpire(s)
 Spec == Init /\ [][Next]_vars
@@ -273,6 +322,7 @@ TypeOK == /\ used \subseteq Cands /\ taken \subseteq (Cands \cup Slots)
                               /\ att[p] \in 0..MaxAttempts /\ hold[p] \in 0..NSlots
           /\ \A i \in MuDom : mu[i] \in Procs \cup {"none"}
           /\ \A i \in MuDom : mu[i] = "none" => Waiters(i) = {}          \* a free mutex has no waiters
+          /\ farm \in {"idle", "spent"} /\ fk \in Faults \cup {"none"}
 \* (1) no two un-released successful generations are equal
 Unique       == ~dup
 HeldDisjoint == \A p, q \in Procs : p # q => held[p] \cap held[q] = {}
@@ -287,6 +337,8 @@ Exhaustion   == (taken = Cands /\ Mode = "gen") => \A p \in Procs : held[p] = {}
 \* instance (its own mutex) is safe
 FallbackOnlyDeviation == (Unique \/ nonAtomic) /\ (layout = "same" => (Unique /\ HeldMarked))
 \* node ids
+\* a node whose allocation failed holds nothing (so its Release has nothing to delete)
+FailedHoldsNothing == \A n \in Procs : pc[n] \in {"failed", "gone"} => hold[n] = 0
 NodeUnique == /\ ~ndup
               /\ \A n, m \in Procs : (n # m /\ Live(n) /\ Live(m)) => hold[n] # hold[m]
 NoForeign  == ~nforeign
